@@ -55,7 +55,11 @@ GffItems ==
      s \in {0, 9, -3}, sc \in {<<46>>, <<49, 46, 53>>, <<43, 73, 110, 102>>}, st \in {43, 46}, fr \in {46, 50},
      at \in {<<>>, <<<<<<116>>, <<118>>>>>>, <<<<<<116>>, <<>>>>, <<<<117, 95>>, <<120, 32, 121>>>>>>},
      cm \in {<<>>, <<99>>}}
+  \* a single base: in the file the start and end columns are equal (one-based, closed)
+  \cup {[kind |-> "feature", seqname |-> <<115>>, source |-> <<46>>, feature |-> <<102>>, start |-> s, end |-> s + 1,
+          score |-> <<46>>, strand |-> 43, frame |-> 46, attrs |-> <<>>, comments |-> <<>>] : s \in {0, 6}}
   \cup {[kind |-> "region", name |-> <<114>>, start |-> s, end |-> s + 3] : s \in {0, 4}}
+  \cup {[kind |-> "region", name |-> <<114>>, start |-> 2, end |-> 3]}
   \cup {[kind |-> "sequence", moltype |-> m, name |-> <<113>>, letters |-> l] : m \in {1, 3}, l \in Letters \ {<<>>}}
 
 \* base items for GFF mutation runs: one of each kind
@@ -160,12 +164,23 @@ FieldEdits(t) ==
          \cup {Put(SubSeq(f, 1, c) \o SubSeq(f, c, Len(f)))}
        : c \in 1..Len(f)}
   : i \in 1..Len(ls)}
+\* replace one blank-separated token of a directive line (##sequence-region name start end, ##DNA name, ...)
+DirectiveEdits(t) ==
+  LET ls == Lines(t) IN
+  UNION {
+    IF Len(ls[i]) >= 2 /\ ls[i][1] = 35 /\ ls[i][2] = 35 THEN
+      LET f == Split(ls[i], SP)
+          Put(g) == Flatten([k \in 1..Len(ls) |-> (IF k = i THEN JoinWith(g, <<SP>>) ELSE ls[k]) \o <<LF>>])
+      IN UNION {{Put([f EXCEPT ![c] = tok]) : tok \in {<<>>, <<48>>, <<120>>, <<45, 49>>}} : c \in 1..Len(f)}
+    ELSE {}
+  : i \in 1..Len(ls)}
 ByteEdits(t) ==
   {[t EXCEPT ![k] = b] : k \in 1..Len(t), b \in {LF, 43, 64, 62, 35, SP}}
   \cup {SubSeq(t, 1, k - 1) \o SubSeq(t, k + 1, Len(t)) : k \in 1..Len(t)}
 
 MutationSteps(fmt, t) ==
   Truncations(t) \cup (IF fmt \in {"bed", "gff"} THEN FieldEdits(t) ELSE ByteEdits(t))
+  \cup (IF fmt = "gff" THEN DirectiveEdits(t) ELSE {})
 
 (***************************************************************************)
 VARIABLES fmt, recs, cfg, text, steps, crlf
